@@ -600,13 +600,18 @@ impl<const M: usize> World<M> {
         let envp = self.env as usize;
         let (step, arena) = (self.step, self.arena);
         let b = self.bump.take().unwrap();
-        let h = std::thread::spawn(move || {
-            crate::env::attach(envp as *mut crate::env::ExecEnv);
+        let (b, r) = if self.hop_inline {
             let r = arena_op(envp as *mut crate::env::ExecEnv, step, arena, &[], || b.try_alloc_layout(Layout::from_size_align(8, 1).unwrap()).map(|p| p.as_ptr() as usize).ok());
-            crate::env::attach(std::ptr::null_mut());
             (b, r)
-        });
-        let (b, r) = h.join().expect("hop thread");
+        } else {
+            let h = std::thread::spawn(move || {
+                crate::env::attach(envp as *mut crate::env::ExecEnv);
+                let r = arena_op(envp as *mut crate::env::ExecEnv, step, arena, &[], || b.try_alloc_layout(Layout::from_size_align(8, 1).unwrap()).map(|p| p.as_ptr() as usize).ok());
+                crate::env::attach(std::ptr::null_mut());
+                (b, r)
+            });
+            h.join().expect("hop thread")
+        };
         self.bump = Some(b);
         self.note_requests();
         self.cov |= cov::THREAD_HOP;
@@ -928,9 +933,9 @@ impl<const M: usize> World<M> {
                         }
                     }
                 }
-                // the caller owns `new_size` bytes (the slice may be reported longer, but memory
-                // beyond the new layout has been given back to the allocator's discretion)
-                if !self.accept_block(what, a, new_size, new_align, true, None) {
+                // the caller may use every byte of the slice that was returned (Allocator contract), so all of
+                // it must be the caller's alone
+                if !self.accept_block(what, a, len.max(new_size), new_align, true, None) {
                     self.terminal = true;
                 }
             }
